@@ -2,6 +2,7 @@ package checks
 
 import (
 	"fmt"
+	"go/token"
 	"go/types"
 	"sort"
 	"strings"
@@ -228,6 +229,68 @@ func runC18(c *Ctx) {
 	}
 	if nGo < 4 {
 		R.Fatal("only %d go statements found in service (anchor)", nGo)
+	}
+	// ---- frame headers are shared between a session and the first message: only the reader (before hand-over) and the
+	// writer may look inside one; the manager and API callers only pass the pointer on
+	{
+		R.Rules["E5.header-roles"] = "a *jt808.Header (the session's header is the first message's header, which the writer stamps for every reply) is dereferenced - field access, whole-struct copy, method call - only in the reader role before hand-over and in the writer role; the session manager, API callers and timer goroutines only copy the pointer"
+		isHdr := func(t types.Type) bool {
+			pt, ok := t.Underlying().(*types.Pointer)
+			if !ok {
+				return false
+			}
+			n, ok := pt.Elem().(*types.Named)
+			if !ok || n.Obj().Pkg() == nil || !strings.HasSuffix(n.Obj().Pkg().Path(), "protocol/jt808") {
+				return false
+			}
+			return n.Obj().Name() == "Header" || n.Obj().Name() == "BodyProperty"
+		}
+		nAcc := 0
+		var bad []string
+		for _, fn := range c.RepoFuncs("service") {
+			roles := rolesOf(ri, fn)
+			foreign := []string{}
+			for _, r := range roles {
+				if r != "reader" && r != "writer" {
+					foreign = append(foreign, r)
+				}
+			}
+			for _, b := range fn.Blocks {
+				for _, ins := range b.Instrs {
+					what := ""
+					switch x := ins.(type) {
+					case *ssa.FieldAddr:
+						if isHdr(x.X.Type()) {
+							what = "field access"
+						}
+					case *ssa.UnOp:
+						if x.Op == token.MUL && isHdr(x.X.Type()) {
+							what = "copy of the whole header"
+						}
+					case *ssa.Call:
+						if sc := x.Call.StaticCallee(); sc != nil && sc.Signature.Recv() != nil && isHdr(sc.Signature.Recv().Type()) {
+							what = "call of " + sc.Name()
+						}
+					}
+					if what == "" {
+						continue
+					}
+					nAcc++
+					if len(foreign) > 0 {
+						bad = append(bad, fmt.Sprintf("%s in %s (roles %v) at %s", what, shortFn(fn), foreign, c.P.RelPos(ins.Pos())))
+					}
+				}
+			}
+		}
+		st, d := report.Discharged, ""
+		if len(bad) > 0 {
+			st, d = report.Violated, "the frame header shared with the writer goroutine (which stamps ReplyID / PlatformSerialNumber for every reply) is read outside the reader/writer roles without synchronisation: "+strings.Join(dedupe(bad), "; ")
+		}
+		R.Add("E5.header-roles", "jt808.Header / dereferenced only by reader and writer", "", st, d)
+		R.Notes["header_dereferences_examined"] = nAcc
+		if nAcc < 5 {
+			R.Fatal("only %d dereferences of jt808.Header found in service (anchor)", nAcc)
+		}
 	}
 	// ---- use after send, all functions of the package
 	nSend := 0
